@@ -74,3 +74,195 @@ def real_numba(threads=None, chunksize=None):
     finally:
         numba.set_num_threads(old_t)
         numba.set_parallel_chunksize(old_c)
+
+
+# --------------------------------------------------------------------------
+# simulated worlds
+# --------------------------------------------------------------------------
+_SIM = {"kernels": None, "unsupported": {}, "srchash": None}
+
+
+def sim_kernels():
+    """name -> interpreted kernel with outlined prange body (built once per process from the current source)."""
+    from speckit import core
+    from . import parfor
+
+    if _SIM["kernels"] is None:
+        ns = parfor.sim_namespace(core)
+        ks = {}
+        for name in NUMBA_KERNELS:
+            try:
+                fn = parfor.build_sim_kernel(getattr(core, name), ns, "core." + name)
+                if getattr(fn, "__sim_parfor_loops__", 0) == 0:
+                    _SIM["unsupported"][name] = "no prange loop (nothing to schedule; runs serially)"
+                ks[name] = fn
+            except parfor.Unsupported as e:
+                _SIM["unsupported"][name] = str(e)
+            except SyntaxError as e:  # pragma: no cover
+                _SIM["unsupported"][name] = "syntax: " + str(e)
+        _SIM["kernels"] = ks
+    return _SIM["kernels"]
+
+
+def sim_unsupported():
+    sim_kernels()
+    return dict(_SIM["unsupported"])
+
+
+@contextlib.contextmanager
+def sim_numba(ctx):
+    """Numba backend with the prange loops executed by simulated workers under the baton scheduler."""
+    from speckit import analysis
+    from . import parfor
+
+    ks = sim_kernels()
+    mapping = {k: v for k, v in ks.items()}
+    old = parfor.current()
+    parfor.set_context(ctx)
+    try:
+        with patched(analysis, mapping):
+            yield
+    finally:
+        parfor.set_context(old)
+
+
+@contextlib.contextmanager
+def sim_cuda(ctx, tpb=None):
+    """CUDA backend inside Numba's CPU simulator with seeded thread scheduling and launch geometry."""
+    from speckit import core_cuda
+    from . import parfor, gpu
+
+    gpu.install()
+    old = parfor.current()
+    old_tpb = core_cuda.THREADS_PER_BLOCK
+    parfor.set_context(ctx)
+    try:
+        if tpb is not None:
+            core_cuda.THREADS_PER_BLOCK = int(tpb)
+        yield
+    finally:
+        core_cuda.THREADS_PER_BLOCK = old_tpb
+        parfor.set_context(old)
+
+
+# --------------------------------------------------------------------------
+# kernel-level entry (C01): run one backend statistic function in one world
+# --------------------------------------------------------------------------
+
+def kernel_name(mode, order):
+    fam = {-1: "_stats_win_only_", 0: "_stats_detrend0_"}.get(order, "_stats_poly_")
+    return fam + ("csd" if mode == "csd" else "auto")
+
+
+def gen_world(rw, kind, K=None):
+    """Seeded knobs for one world."""
+    if kind == "sim-numba":
+        return {"world": kind, "sched": rw.randrange(2 ** 31), "max_workers": rw.choice([2, 3, 4, 6]), "poison": rw.random() < 0.8,
+                "policy": rw.choice([None, None, "random", "roundrobin", "starve", "serial_perm", "pct"])}
+    if kind == "sim-cuda":
+        return {"world": kind, "sched": rw.randrange(2 ** 31), "tpb": rw.choice([1, 2, 3, 4, 4, 7, 32, 256]), "poison": rw.random() < 0.8,
+                "policy": rw.choice([None, None, "random", "roundrobin", "starve", "serial_perm", "pct"])}
+    if kind == "numpy":
+        opts = [None, 1, 2, 3, 5]
+        if K:
+            opts += [max(1, K - 1), K, K + 1]
+        return {"world": kind, "chunk": rw.choice(opts)}
+    if kind == "real-numba":
+        return {"world": kind, "threads": rw.choice([1, 2, 3, 5, 8, 16]), "chunksize": rw.choice([0, 0, 1, 2, 3, 7])}
+    raise ValueError(kind)
+
+
+def make_ctx(wspec, serial=False):
+    import random
+    from . import parfor
+
+    return parfor.SimContext(random.Random(wspec.get("sched", 0)), serial=serial, max_workers=wspec.get("max_workers", 6),
+                             poison=wspec.get("poison", True), policy=wspec.get("policy"))
+
+
+def run_kernel(wspec, mode, order, x, y, starts, L, w, omega):
+    """Returns ((MXX, MYY, mu_r, mu_i, M2), ctx_or_None).  Exceptions of the code under test propagate."""
+    from speckit import core
+    from . import parfor
+
+    name = kernel_name(mode, order)
+    args = [x] + ([y] if mode == "csd" else []) + [starts, int(L), w, float(omega)]
+    if order in (1, 2):
+        args.append(core._build_Q(int(L), int(order)))
+    world = wspec["world"]
+    if world == "real-numba":
+        with real_numba(wspec.get("threads"), wspec.get("chunksize")):
+            return tuple(float(v) for v in getattr(core, name)(*args)), None
+    if world == "numpy":
+        kw = {} if wspec.get("chunk") is None else {"_chunk": int(wspec["chunk"])}
+        return tuple(float(v) for v in getattr(core, name + "_np")(*args, **kw)), None
+    ctx = make_ctx(wspec, serial=wspec.get("serial", False))
+    if world == "sim-numba":
+        ks = sim_kernels()
+        old = parfor.current()
+        parfor.set_context(ctx)
+        try:
+            fn = ks.get(name)
+            if fn is None:
+                ctx.count("sim_unsupported_fallback")
+                res = getattr(core, name)(*args)
+            else:
+                res = fn(*args)
+        finally:
+            parfor.set_context(old)
+        return tuple(float(v) for v in res), ctx
+    if world == "sim-cuda":
+        from speckit import core_cuda
+
+        with sim_cuda(ctx, wspec.get("tpb")):
+            res = getattr(core_cuda, name + "_cuda")(*args)
+        return tuple(float(v) for v in res), ctx
+    raise ValueError(world)
+
+
+@contextlib.contextmanager
+def analysis_world(wspec, ctx=None):
+    """Context in which SpectrumAnalyzer(backend=backend_of(wspec)) computes in the given world."""
+    world = wspec["world"]
+    if world == "real-numba":
+        with real_numba(wspec.get("threads"), wspec.get("chunksize")):
+            yield None
+    elif world == "numpy":
+        with numpy_knob(wspec.get("chunk")):
+            yield None
+    elif world == "sim-numba":
+        ctx = ctx or make_ctx(wspec, serial=wspec.get("serial", False))
+        with sim_numba(ctx):
+            yield ctx
+    elif world == "sim-cuda":
+        ctx = ctx or make_ctx(wspec, serial=wspec.get("serial", False))
+        with sim_cuda(ctx, wspec.get("tpb")):
+            yield ctx
+    else:
+        raise ValueError(world)
+
+
+def backend_of(wspec):
+    return {"real-numba": "numba", "sim-numba": "numba", "numpy": "numpy", "sim-cuda": "cuda"}[wspec["world"]]
+
+
+def absorb(out, ctx):
+    """Fold a simulation context's statistics into a scenario outcome."""
+    if ctx is None:
+        return
+    st = ctx.stats
+    out.sim_steps += st.steps
+    out.sim_handovers += st.handovers
+    for k, v in ctx.counters.items():
+        out.count(k, v)
+    if st.preempt_in_body:
+        out.count("preempt_in_body", st.preempt_in_body)
+    if st.preempt_at_rmw:
+        out.count("preempt_at_rmw", st.preempt_at_rmw)
+    if st.starved:
+        out.count("starved_worker", st.starved)
+    for k, v in st.policies.items():
+        out.count("policy_" + k, v)
+    out.observe("sched", st.decisions.hexdigest()[:16], st.steps)
+    out.extra.setdefault("schedule_digests", []).append(st.decisions.hexdigest()[:12])
+    out.extra["commit_orders"] = out.extra.get("commit_orders", 0) + len(ctx.commit_orders)
